@@ -1621,15 +1621,11 @@ def _apply_constraints_iteratively(
     for iteration in range(max_iter):
         changed = False
 
-        # check if we already resolved everything
-        if all(
-            [
-                all([shape_dict[o][i] is not None for i in range(3)])
-                and all([all([slice_dict[o][i][s] is not None for s in range(2)]) for i in range(3)])
-                for o in object_map.keys()
-            ]
-        ):
-            break
+        # Note: there is deliberately no early exit once every shape and slice is known. A constraint
+        # that was not yet applicable when it was visited (because the object it refers to got resolved
+        # later in the same pass) has not been checked against the final slices at that point. The loop
+        # only stops after a full pass that changed nothing, i.e. after every constraint has been
+        # verified (or reported as inconsistent) on the final slices.
 
         # Try to resolve positions from partial_real_position if size is now known
         resolved, slice_dict, errors = _resolve_static_positions_iterative(
@@ -1724,6 +1720,14 @@ def _apply_constraints_iteratively(
         # max_iter reached without convergence
         # Ensure all unresolved objects are flagged
         errors = _handle_unresolved_objects(object_map=object_map, slice_dict=slice_dict, errors=errors)
+        # The last pass still changed something, so the constraints have not been verified against
+        # the final slices: do not report any object as successfully placed.
+        for obj_name in object_map.keys():
+            if errors[obj_name] is None:
+                errors[obj_name] = (
+                    f"Constraint resolution did not converge within {max_iter} iterations; "
+                    f"the constraints could not be verified for {obj_name}."
+                )
 
     return slice_dict, errors
 
